@@ -306,7 +306,8 @@ ResponseSeen(h) ==     \* h = [code, hdrs : Seq([k, vs]), body]
 (*      remains; of a large one the digest of the remaining bytes, off 0)  *)
 (*      media = "json" | "text" | "urlencoded" | "multipart" | "none";     *)
 (*      fails (files): the upload source fails before its end              *)
-(*  o = the observation: [err, handled_op, received : Seq([name, vs]),     *)
+(*  o = the observation: [err, handled_op, invoked (handler invocations    *)
+(*      that carried this call's values), received : Seq([name, vs]),      *)
 (*      handler : [code, hdrs, body], seen : [code, hdrs, body]]           *)
 ValueLoc(p) == IF p.loc \in {"file", "body"} THEN "multiform" ELSE p.loc    \* files and bodies travel verbatim
 
@@ -325,7 +326,7 @@ HdrSeen(o, k) == LET idx == {i \in 1..Len(o.seen.hdrs) : o.seen.hdrs[i].k = k}
                  IN IF idx = {} THEN <<>> ELSE o.seen.hdrs[CHOOSE i \in idx : TRUE].vs
 
 RequestAgrees(c, o) ==
-  /\ o.handled_op = c.op                                                  \* that operation's handler is invoked
+  /\ o.handled_op = c.op /\ o.invoked = 1                                 \* that operation's handler is invoked (once)
   /\ \A i \in 1..Len(c.params) : Received(o, c.params[i].name) = << SuppliedVs(c.params[i]) >>   \* with the values supplied
 
 ResponseInScope(h) ==
@@ -352,6 +353,7 @@ WhyExchange(c, o) ==
   IF CallFails(c) THEN "success-although-upload-source-failed"
   ELSE IF o.err THEN "client-error"
   ELSE IF o.handled_op # c.op THEN "other-operation-or-none-invoked"
+  ELSE IF o.invoked # 1 THEN "handler-not-invoked-exactly-once"
   ELSE IF ~RequestAgrees(c, o)
        THEN LET i == CHOOSE j \in 1..Len(c.params) : Received(o, c.params[j].name) # << SuppliedVs(c.params[j]) >>
             IN CASE c.params[i].loc = "path"   -> "received-differs-path"
